@@ -141,7 +141,9 @@ def check(ctx):
     ps = return_paths(ctx.paths(f))
     into = lambda e: e[0] == "fnitem" and path_ends(e[1], "Into::into") or (e[0] == "fnitem" and path_ends(e[1], "From::from"))
     res_pat = Bind("results", Call("Iterator::collect", Call("Iterator::map", Call("IntoIterator::into_iter", Param(1), nargs=1), into, nargs=2), nargs=1))
-    tot_pat = Call("Iterator::sum", Call("[T]::iter", Through(Bind("results"), calls=("Deref::deref",)), nargs=1), nargs=1)
+    # `iter.sum::<R>()` is by definition `<R as Sum<_>>::sum(iter)` (core::iter::Iterator::sum), so the qualified spelling is the same total
+    SUMS = ("Iterator::sum", "Sum::sum")
+    tot_pat = Call(SUMS, Call("[T]::iter", Through(Bind("results"), calls=("Deref::deref",)), nargs=1), nargs=1)
     ok = len(ps) == 1 and match(ps[0].ret, Agg("TestResults::TestResults", res_pat, tot_pat))
     if ok:
         # field order of the aggregate: results, total_result
@@ -158,14 +160,14 @@ def check(ctx):
             d = acc["done"][0]
             conv = v is not None and callee_is(v, "Into::into", "From::from") and len(v[3]) == 1 and K.strip(v[3][0], calls=()) == acc["item"]
             is_res = lambda e: K.strip(e, calls=("Deref::deref",)) == acc["out"]
-            loop_form = not conds and conv and d.end == "return" and match(d.ret, Agg("TestResults::TestResults", is_res, Call("Iterator::sum", Call("[T]::iter", is_res, nargs=1), nargs=1)))
+            loop_form = not conds and conv and d.end == "return" and match(d.ret, Agg("TestResults::TestResults", is_res, Call(SUMS, Call("[T]::iter", is_res, nargs=1), nargs=1)))
             adt = F.adts.get(TR + "TestResults")
             loop_form = loop_form and [x["name"] for x in adt["variants"][0]["fields"]] == ["results", "total_result"]
             ok = loop_form
     ctx.check(ok, "R15.4", "TestResults/from=collect+sum-of-same-vector", short(ps[0].ret, 7) if ps else "-", f.at(),
               bad_detail="expected TestResults{results: collect(map(into_iter(values), Into::into)), total_result: sum(results.iter())}; extracted " +
               "; ".join(short(p.ret, 10) for p in ps))
-    allowed = ("IntoIterator::into_iter", "Iterator::map", "Iterator::collect", "Deref::deref", "[T]::iter", "Iterator::sum")
+    allowed = ("IntoIterator::into_iter", "Iterator::map", "Iterator::collect", "Deref::deref", "[T]::iter") + SUMS
     if loop_form:
         allowed = allowed + ("Vec::new", "Vec::with_capacity", "Iterator::next", "Vec::push", "Into::into", "From::from", "Vec::len", "ExactSizeIterator::len", "Iterator::size_hint")
     extra = [c for p in (ctx.paths(f) if loop_form else ps) for c in p.calls() if not callee_is(c, *allowed)]
